@@ -24,6 +24,8 @@ struct ANode {
     kind: String,
     loc: String,
     inputs: Vec<usize>,
+    /// the node lives on a `Tick` location (oracle only; not part of the abstract IR given to the model)
+    in_tick: bool,
 }
 
 #[derive(Default)]
@@ -31,6 +33,10 @@ struct Extract {
     nodes: Vec<ANode>,
     /// varname of the DFIR operators -> abstract node
     owner: BTreeMap<String, usize>,
+}
+
+fn in_tick(l: &LocationId) -> bool {
+    matches!(l, LocationId::Tick(..) | LocationId::Atomic(..))
 }
 
 fn loc_str(l: &LocationId) -> String {
@@ -73,6 +79,7 @@ fn extract(ir: &[HydroRoot], named: &BTreeSet<String>) -> Extract {
     }
     fn visit(node: &HydroNode, st: &mut St) -> usize {
         let loc = loc_str(&node.metadata().location_id);
+        let in_tick = in_tick(&node.metadata().location_id);
         if let HydroNode::Tee { inner, .. } = node {
             let ip = inner.0.as_ref().as_ptr() as usize;
             if let Some(&t) = st.tee_of.get(&ip) {
@@ -85,7 +92,7 @@ fn extract(ir: &[HydroRoot], named: &BTreeSet<String>) -> Extract {
             let s = stmt(node, st);
             let id = if st.named.contains(&format!("stream_{s}")) {
                 let id = st.ex.nodes.len();
-                st.ex.nodes.push(ANode { kind: "t".into(), loc, inputs: vec![inner_id] });
+                st.ex.nodes.push(ANode { kind: "t".into(), loc, inputs: vec![inner_id], in_tick });
                 st.ex.owner.insert(format!("stream_{s}"), id);
                 id
             } else {
@@ -98,9 +105,9 @@ fn extract(ir: &[HydroRoot], named: &BTreeSet<String>) -> Extract {
         let stmt = stmt(node, st);
         match node {
             HydroNode::Network { input, .. } => {
-                st.ex.nodes.push(ANode { kind: "N".into(), loc: loc_str(&input.metadata().location_id), inputs });
+                st.ex.nodes.push(ANode { kind: "N".into(), loc: loc_str(&input.metadata().location_id), inputs, in_tick: false });
                 let id = st.ex.nodes.len();
-                st.ex.nodes.push(ANode { kind: "r".into(), loc, inputs: vec![] });
+                st.ex.nodes.push(ANode { kind: "r".into(), loc, inputs: vec![], in_tick: false });
                 st.ex.owner.insert(format!("stream_{stmt}"), id);
                 id
             }
@@ -116,7 +123,7 @@ fn extract(ir: &[HydroRoot], named: &BTreeSet<String>) -> Extract {
                     return inputs[0];
                 }
                 let id = st.ex.nodes.len();
-                st.ex.nodes.push(ANode { kind, loc, inputs });
+                st.ex.nodes.push(ANode { kind, loc, inputs, in_tick });
                 st.ex.owner.insert(format!("stream_{stmt}"), id);
                 id
             }
@@ -126,14 +133,15 @@ fn extract(ir: &[HydroRoot], named: &BTreeSet<String>) -> Extract {
     for root in ir2.iter() {
         let input = visit(root.input(), &mut st);
         let loc = loc_str(&root.input().metadata().location_id);
+        let in_tick = in_tick(&root.input().metadata().location_id);
         match root {
             HydroRoot::CycleSink { cycle_id, .. } => {
                 let id = st.ex.nodes.len();
-                st.ex.nodes.push(ANode { kind: format!("C{cycle_id}"), loc, inputs: vec![input] });
+                st.ex.nodes.push(ANode { kind: format!("C{cycle_id}"), loc, inputs: vec![input], in_tick });
                 st.ex.owner.insert(format!("cycle_{cycle_id}"), id);
             }
             _ => {
-                st.ex.nodes.push(ANode { kind: "S".into(), loc, inputs: vec![input] });
+                st.ex.nodes.push(ANode { kind: "S".into(), loc, inputs: vec![input], in_tick });
             }
         }
     }
@@ -150,9 +158,21 @@ fn show_ir(ex: &Extract) -> String {
         .join(";")
 }
 
-/// independent oracle: does the abstract IR have a dependency cycle that avoids every edge into a
-/// DeferTick (network halves are not connected)?
-fn has_undelayed_cycle(ex: &Extract) -> bool {
+/// which dependency edges of the abstract IR the cycle analysis follows
+#[derive(Clone, Copy, PartialEq)]
+enum Edges {
+    /// same-tick dependencies: everything except the edges into a DeferTick (network halves are
+    /// not connected)
+    SameTick,
+    /// as `SameTick`, but without the `CycleSink -> CycleSource` edge of forward references that
+    /// live on a tick location (what is left are cycles closed by top-level forward references only)
+    SameTickTopLevelRefsOnly,
+    /// every dependency: also the edges into a DeferTick and send half -> receive half of a network
+    All,
+}
+
+/// independent oracle: does the abstract IR have a dependency cycle along the chosen edges?
+fn has_cycle(ex: &Extract, edges: Edges) -> bool {
     let n = ex.nodes.len();
     let mut sink_of: BTreeMap<String, usize> = BTreeMap::new();
     for (i, nd) in ex.nodes.iter().enumerate() {
@@ -162,15 +182,21 @@ fn has_undelayed_cycle(ex: &Extract) -> bool {
     }
     let mut succ: Vec<Vec<usize>> = vec![vec![]; n];
     for (i, nd) in ex.nodes.iter().enumerate() {
-        if nd.kind != "d" {
+        if nd.kind != "d" || edges == Edges::All {
             for &x in &nd.inputs {
                 succ[x].push(i);
             }
         }
         if let Some(k) = nd.kind.strip_prefix('c') {
             if let Some(&s) = sink_of.get(k) {
-                succ[s].push(i);
+                if !(edges == Edges::SameTickTopLevelRefsOnly && nd.in_tick) {
+                    succ[s].push(i);
+                }
             }
+        }
+        // the receive half of a network node directly follows its send half
+        if edges == Edges::All && nd.kind == "r" && i > 0 && ex.nodes[i - 1].kind == "N" {
+            succ[i - 1].push(i);
         }
     }
     // Kahn
@@ -298,6 +324,7 @@ fn run_case(n: u64, tape: &[u8], bad: bool, rec: &mut Recorder) {
     }
     rec.count(&format!("tick_cycles={}", built.tick_cycles));
     rec.count(&format!("forward_refs={}", built.forward_refs));
+    rec.count(&format!("tick_forward_refs={}", built.tick_forward_refs));
     rec.count(&format!("networks={}", built.networks.min(4)));
     rec.count(&format!("tees={}", built.tees.min(6)));
     // production builder
@@ -314,11 +341,29 @@ fn run_case(n: u64, tape: &[u8], bad: bool, rec: &mut Recorder) {
     };
     rec.count(&format!("verdict:{}", verdict.split(':').next().unwrap()));
     // the property on the real builder, against the independent cycle analysis of the IR
-    let cyc = has_undelayed_cycle(&ex);
-    if cyc {
-        rec.check(verdict == "reject-cycle", "undelayed-ir-cycle-not-rejected-as-same-tick-cycle", &format!("verdict={verdict} ir={}", show_ir(&ex)));
-    } else {
+    let cyc = has_cycle(&ex, Edges::SameTick);
+    let cyc_top = has_cycle(&ex, Edges::SameTickTopLevelRefsOnly);
+    let failed_otherwise = verdict.starts_with("failed:");
+    rec.check(!failed_otherwise, "builder-failed-other-than-same-tick-cycle-diagnostic", &format!("verdict={verdict} detail={:?} ir={}", res.as_ref().err(), show_ir(&ex)));
+    if !cyc {
+        // every dependency cycle is delayed (DeferTick) or crosses the network: must compile
         rec.check(verdict == "accept", "well-formed-flow-did-not-compile-to-a-valid-dataflow", &format!("verdict={verdict} detail={:?} ir={}", res.as_ref().err(), show_ir(&ex)));
+        rec.count(if has_cycle(&ex, Edges::All) { "shape:delayed-or-network-cycle" } else { "shape:acyclic" });
+    } else if !cyc_top {
+        // a forward reference on a *tick* location completed with a value that depends on it in the
+        // same tick: excluded by the documented contract of `ForwardHandle::complete`; the builder
+        // must refuse it with the same-tick-cycle diagnostic
+        rec.check(verdict == "reject-cycle", "synchronous-tick-forward-ref-cycle-not-rejected-as-same-tick-cycle", &format!("verdict={verdict} ir={}", show_ir(&ex)));
+        rec.count("shape:synchronous-tick-forward-ref-cycle");
+    } else {
+        // a cycle closed by a *top-level* forward reference through local operators only (no
+        // DeferTick, no network): type-checks, every forward reference is completed, documented as
+        // allowed ("Asynchronous cycles (outside a tick) are allowed") -- the property demands a
+        // valid dataflow
+        if !failed_otherwise {
+            rec.check(verdict == "accept", "top-level-forward-ref-local-cycle-rejected-as-same-tick-cycle", &format!("verdict={verdict} ir={}", show_ir(&ex)));
+        }
+        rec.count("shape:top-level-forward-ref-local-cycle");
     }
     rec.check(cyc == built.undelayed_cycle || !bad, "generator-taint-vs-ir-cycle", "informational");
     rec.line(&format!("ir {}", show_ir(&ex)), &verdict);
